@@ -138,7 +138,7 @@ def run_tlc(module: str, cfg: str, *, workers: int | str = 8, timeout: int = 900
             res.violated = (m or m2).group(1) if (m or m2) else ("temporal" if m3 else "postcondition" if m4 else "unknown")
             i = out.find("Error:")
             res.trace_text = out[i:i + 6000]
-        elif tolerate_overflow and simulate is not None and "Overflow when computing" in out:
+        elif tolerate_overflow and "Overflow when computing" in out:
             # TLC's integers are 32-bit and it stops (loudly) instead of wrapping: the behaviours written before the stop are complete and valid
             res.ok = True
             res.overflow = True  # type: ignore[attr-defined]
